@@ -24,7 +24,17 @@ ARR = {"type": "array", "items": "string"}
 MAP = {"type": "map", "values": "long"}
 OTHER = {"type": "record", "name": "Different", "fields": [{"name": "zzz", "type": "double"}]}
 
+FLT = {"type": "record", "name": "Flt", "fields": [{"name": "a", "type": "long"}, {"name": "s", "type": "string"}, {"name": "f", "type": "float"}, {"name": "m", "type": {"type": "map", "values": "int"}}]}
+
 FAMILIES = {
+    "flt": dict(
+        schema=FLT,
+        good=[{"a": 1, "s": "x", "f": 1.5, "m": {}}, {"a": -2, "s": "yy" * 40, "f": -0.0, "m": {"k": 1}}],
+        bad=[{"a": 7, "s": "partial", "f": 1e39, "m": {}},  # OverflowError after a and s were encoded
+             {"a": 7, "s": "partial", "f": 10**400, "m": {}},
+             {"a": 7, "s": "partial", "f": 1.0, "m": [1, 2]},  # AttributeError: list has no items()
+             {"a": 7, "s": "partial", "f": 1.0, "m": {"k": 2**70}}],
+    ),
     "rec": dict(
         schema=REC,
         good=[{"a": 0, "b": "", "c": []}, {"a": -1, "b": "hello", "c": [1, 2, 3]}, {"a": 2**62, "b": "x" * 300, "c": list(range(100))}, {"a": 7, "b": "é", "c": [2**31 - 1]}],
@@ -61,7 +71,7 @@ class C07(Check):
         "a successful one, write_block with pending records, append after an empty flush, or >=2 reopenings."
     )
     assumptions = ["a reopen is preceded by a flush (records never flushed before the writer is dropped are not 'submitted so far' at any flush)"]
-    required_labels = ["failed-then-success", "write_block-with-pending", "reopens>=2", "append-after-empty-flush", "family:empty", "family:rec", "stream:file", "validator:on", "validator:off", "auto-dump"]
+    required_labels = ["failed-then-success", "write_block-with-pending", "reopens>=2", "append-after-empty-flush", "family:empty", "family:rec", "family:flt", "stream:file", "validator:on", "validator:off", "auto-dump"]
     quick = (300, 1)
     thorough = (1500, 16)
 
@@ -77,7 +87,7 @@ class C07(Check):
         @st.composite
         def histories(draw):
             d = gen.D(draw)
-            famname = d.choice(["rec", "rec", "empty", "union", "arr", "map"])
+            famname = d.choice(["rec", "flt", "empty", "union", "arr", "map", "rec"])
             fam = FAMILIES[famname]
             init = {
                 "family": famname,
